@@ -621,11 +621,16 @@ package syntax
 //@   loop 1 invariant forall j :: 0 <= j && j < cap(disable) ==> disable[j] == old(disable[j])
 //@   loop 2 invariant forall j :: 0 <= j && j < cap(disable) ==> disable[j] == old(disable[j])
 //@   loop 3 invariant forall j :: 0 <= j && j < cap(disable) ==> disable[j] == old(disable[j])
+// A per-fork array (or map) of disabling values is dropped from the call's conditions - the
+// inherited list comes back unchanged, without error - only when EVERY element is the constant
+// false; one reference among them keeps the condition (it may be true at run time).
 //@ func syntax.resolveDisableArray property C03 C01
 //@   ensures @inputuntouched forall j :: 0 <= j && j < cap(disable) ==> disable[j] == old(disable[j])
 //@   loop 1 invariant forall j :: 0 <= j && j < cap(disable) ==> disable[j] == old(disable[j])
+//@   ensures @droppedonlyiffalse len(v) >= 2 && isnil(result.1) && base(result.0) == base(disable) && len(result.0) == len(disable) ==> forall j :: 0 <= j && j < len(v) ==> istype(v[j], ptr_syntax.BoolExp) && !as(v[j], ptr_syntax.BoolExp).Value
+//@   loop 1 invariant 0 <= iter && iter <= len(v) && (allFalse ==> forall j :: 0 <= j && j < iter ==> istype(v[j], ptr_syntax.BoolExp) && !as(v[j], ptr_syntax.BoolExp).Value)
 //@ func syntax.resolveDisableMap property C03 C01
 //@   ensures @inputuntouched forall j :: 0 <= j && j < cap(disable) ==> disable[j] == old(disable[j])
 //@   loop 1 invariant forall j :: 0 <= j && j < cap(disable) ==> disable[j] == old(disable[j])
-//@   loop 2 invariant forall j :: 0 <= j && j < cap(disable) ==> disable[j] == old(disable[j])
-//@   loop 3 invariant forall j :: 0 <= j && j < cap(disable) ==> disable[j] == old(disable[j])
+//@   ensures @droppedonlyiffalse len(v) >= 2 && isnil(result.1) && base(result.0) == base(disable) && len(result.0) == len(disable) ==> forall k string :: has(v, k) ==> istype(v[k], ptr_syntax.BoolExp) && !as(v[k], ptr_syntax.BoolExp).Value
+//@   loop 1 invariant allFalse ==> forall k string :: visited(k) ==> istype(v[k], ptr_syntax.BoolExp) && !as(v[k], ptr_syntax.BoolExp).Value
